@@ -5,7 +5,8 @@ are judged by specs/PegTrace.tla, TagLangTrace.tla and JsonDocTrace.tla.
 
 usage: drive_peg.py <in.json> <out.json>
 in : {"jobs": [ {"id":.., "kind":"peg", "ws":[[c,..],..], "terms":[{"t":<term>, "how":"classes"|"operators"|"forward"},..]}
-              | {"id":.., "kind":"tag", "sets":[[tag,..],..], "exprs":[{"toks":[..], "sp":[n,..]},..], "retab":[[body, tag],..]}
+              | {"id":.., "kind":"tag", "sets":[[tag,..],..], "exprs":[{"toks":[..], "sp":[n,..]} | {"text":..},..],
+                 "retab":[[body, tag],..]}
               | {"id":.., "kind":"json", "values":[{"v":<value>, "mode":"compact"|"default"|"indent"},..]} ]}
 out: {"traces":[..], "stats":{..}}
 
@@ -265,8 +266,9 @@ BLANKS = ["", " ", "  ", "\t", " \n "]
 
 
 def tag_text(tk, sp):
-    """Write tokens as text under the lexical contract of TagLang.tla: nothing after '!', the token
-    'sp' is a blank, elsewhere the optional white space chosen by sp (indices into BLANKS)."""
+    """Write tokens as text: 'sp' is a blank; sp (indices into BLANKS) chooses optional white space
+    after a token, except after '!' and after a bare regex (which runs to the next blank: there the
+    blank is the explicit token).  Whatever text results is what the reference reader is given."""
     out = []
     for i, t in enumerate(tk):
         if t["t"] == "sp":
@@ -277,8 +279,8 @@ def tag_text(tk, sp):
             out.append("/" + QUOTE[t["q"]] + t["a"] + QUOTE[t["q"]])
         else:
             out.append(t["t"])
-        if t["t"] != "!":
-            out.append(BLANKS[sp[i % len(sp)] % len(BLANKS)] if sp else "")
+        if sp and t["t"] != "!" and not (t["t"] == "re" and t["q"] == 0):
+            out.append(BLANKS[sp[i % len(sp)] % len(BLANKS)])
     lead = BLANKS[sp[-1] % len(BLANKS)] if sp else ""
     return lead + "".join(out)
 
@@ -290,8 +292,8 @@ def tag(job):
     if rows:
         events.append({"ev": "retab", "rows": rows})
     for e in job["exprs"]:
-        text = tag_text(e["toks"], e.get("sp", []))
-        ev = {"ev": "tag", "toks": e["toks"], "text": text, "ok": False, "vals": []}
+        text = e["text"] if "text" in e else tag_text(e["toks"], e.get("sp", []))
+        ev = {"ev": "tag", "toks": e.get("toks", []), "text": text, "chars": list(text), "ok": False, "vals": []}
         try:
             pred = taglang.parse(text)
             ev["ok"] = True
